@@ -18,6 +18,9 @@ on recurrence plots, including measures of recurrence quantification
 analysis (RQA) and recurrence network analysis.
 """
 
+from typing import Tuple
+from collections.abc import Hashable
+
 # array object and fast numerics
 import numpy as np
 
@@ -150,6 +153,12 @@ class JointRecurrenceNetwork(JointRecurrencePlot, Network):
         else:
             raise ValueError("Delay value (lag) must not exceed length of \
                              time series!")
+
+    def __cache_state__(self) -> Tuple[Hashable, ...]:
+        # the network part only exists once Network.__init__() has run
+        net_state = (Network.__cache_state__(self)
+                     if hasattr(self, "_mut_A") else ())
+        return JointRecurrencePlot.__cache_state__(self) + net_state
 
     def __str__(self):
         """
